@@ -7,11 +7,13 @@
         -> commands_replay_eq_prescribed        (any history, arbitrary table changes between updates)
         -> next_hops_have_neighbor_state        (the side condition is an invariant of the router: F-19a is
                                                  not reachable; no command ever names face 0)
+        -> routes_mirror_tables_always          (the router as a whole: fibUpdate is started only when the code's
+                                                 dirty results say so — and that is enough: after EVERY event)
     * the prefix set a peer reconstructs from the published op log equals the announced set
         -> log_replay_eq_announced              (every publisher history, every peer start point / interleaving)
         -> announced_set_is_spec                (the publisher's set is the announced-and-not-withdrawn set)
 -/
-import NdnVerif.C19.LemmasNbr
+import NdnVerif.C19.LemmasRouter
 import NdnVerif.C19.LemmasLog
 namespace Ndn.C19
 open Spec (Routes rget replay)
@@ -102,6 +104,33 @@ theorem next_hops_have_neighbor_state (self : Nat) (evs : List RouterEvent) :
 
 example : NbrOk (([.ping 5 3 true, .adv 5 [⟨7, 7, 1, 16⟩], .dead 5] : List RouterEvent).foldl Tables.step (Tables.start 2)) :=
   next_hops_have_neighbor_state 2 _
+
+/-- The router as a whole, from start-up, through ANY history of router-level events (sync Interests of
+    neighbours on any faces, active or passive; advertisements with any content; dead-neighbour checks;
+    prefix op lists of any exit router): the tables change and `fibUpdate` runs only when
+    `RecvPing` / `ribUpdate` / `checkDeadNeighbors` / `Apply` report a change, exactly as in
+    advertSyncOnInterest, ribUpdate, checkDeadNeighbors and processPrefixData.  After EVERY event the
+    forwarder's route table (replay of all emitted commands) equals the prescription of the current tables
+    — the dirty results never suppress a needed update. -/
+theorem routes_mirror_tables_always (prefixOf : Nat → Nat) (self : Nat) (evs : List RouterEvent) :
+    let s := evs.foldl (RState.step prefixOf) (RState.start self)
+    ∀ name face, rget s.routes (name, face) = Spec.prescribedCost (prescription prefixOf s.t) name face := by
+  have : ∀ (evs : List RouterEvent) (s : RState), RInv prefixOf s → RInv prefixOf (evs.foldl (RState.step prefixOf) s) := by
+    intro evs
+    induction evs with
+    | nil => intro s h; exact h
+    | cons ev r ih => intro s h; exact ih _ (rinv_step prefixOf h ev)
+  exact (this evs _ (rinv_start prefixOf self)).eq
+
+/-- neighbour 5 comes up on face 3 and advertises router 7, which announces prefix 100; 5 moves to face 4;
+    7 withdraws 100; 5 dies: the replayed table follows -/
+example :
+    let run := fun (evs : List RouterEvent) => (evs.foldl (RState.step (· + 1000)) (RState.start 2)).routes
+    run [.ping 5 3 true, .adv 5 [⟨7, 7, 1, 16⟩], .papply 7 false [100] []] = [((100, 3), 2), ((1007, 3), 2)] ∧
+    run [.ping 5 3 true, .adv 5 [⟨7, 7, 1, 16⟩, ⟨5, 5, 0, 16⟩], .papply 7 false [100] [], .ping 5 4 true, .papply 7 false [] [100]]
+      = [((1005, 4), 1), ((1007, 4), 2)] ∧
+    run [.ping 5 3 true, .adv 5 [⟨7, 7, 1, 16⟩, ⟨5, 5, 0, 16⟩], .papply 7 false [100] [], .ping 5 4 true, .papply 7 false [] [100], .dead 5] = [] := by
+  decide
 
 /-! ### (B) the prefix log replicates the announced set -/
 
